@@ -104,7 +104,12 @@ func Variants(samIn, refIn io.Reader, refFromFile bool, annoIn io.Reader, annoSu
 
 	go groupSamRecords(samIn, cSH, cSR, cReadDone, cErr)
 
-	_ = <-cSH
+	// the reader reports an empty or unparsable stream on cErr before it can send a header
+	select {
+	case err := <-cErr:
+		return err
+	case <-cSH:
+	}
 
 	var wgAlign sync.WaitGroup
 	wgAlign.Add(threads)
